@@ -18,7 +18,7 @@ func runC19(opt *Options) int {
 	ints := map[string]int{"VerifC19LineMax": line, "VerifC19BlockMax": block, "VerifC19GroupLead": gl, "VerifC19GroupKey": gk, "VerifC19GroupTail": gt}
 	lr := &laRun{
 		Opt:  opt,
-		Pkgs: []string{"config/parse", "comments", "pkgload"},
+		Pkgs: []string{"config/parse", "comments", "pkgload", "config"},
 		Kernels: []layera.Kernel{
 			{Name: "K7.line", Pkg: "config/parse", Harness: "VerifHarness_C19_Line", Unwind: 40, SetInts: ints},
 			{Name: "K7.block", Pkg: "config/parse", Harness: "VerifHarness_C19_Block", Unwind: 40, SetInts: ints},
@@ -33,6 +33,7 @@ func runC19(opt *Options) int {
 			{Name: "K7.repeated", Pkg: "comments", Harness: "VerifHarness_C19_Repeated", Unwind: 600},
 			{Name: "K7.filescan", Pkg: "comments", Harness: "VerifHarness_C19_ParseDocsFiles", Unwind: 64, E2E: "c19"},
 			{Name: "K7.nomarker", Pkg: "comments", Harness: "VerifHarness_C19_NoMarker", Unwind: 64},
+			kernelConverterLines("c19"),
 		},
 		Funcs:     []string{"comments.parseGenDecl", "comments.parseFunctions", "comments.parseInterface", "comments.parseInterfaceMethods", "comments.parseRawLines", "pkgload.(*PackageLoader).localConfig (doc comments of custom functions)", "go/ast (Pos, Ident.String, ... executed like the code under test)", "parse.CommentToString", "parse.stripTrailingWhitespace", "parse.isWhitespace", "parse.SettingLines", "parse.Command"},
 		E2EAlways: "c19",
